@@ -56,3 +56,8 @@ func VerifFacts(t *RegexTree) (minLen, maxLen int, lead, trail NodeType, prefix 
 	return root.ComputeMinLength(), root.computeMaxLength(), findLeadingOrTrailingAnchor(root, true),
 		findLeadingOrTrailingAnchor(root, false), vsb.Bytes(), cont
 }
+
+// VerifPattern returns the pattern, the case flag and the direction of a Boyer-Moore prefix.
+func (b *BmPrefix) VerifPattern() (pattern []rune, caseInsensitive, rightToLeft bool) {
+	return append([]rune(nil), b.pattern...), b.caseInsensitive, b.rightToLeft
+}
